@@ -37,25 +37,6 @@ func (s *schedule) describe() map[string]any {
 func stateChain(c *vf.Ctx, i int, r *rand.Rand) {
 	s := genSchedule(c, i, r)
 	I := s.initial
-	// the old-chain layout must not lose a record that is a reference target
-	if len(s.noCkpt) > 0 {
-		for K := range s.noCkpt {
-			var vs []valChange
-			for _, x := range s.vals {
-				if x.at != K {
-					vs = append(vs, x)
-				}
-			}
-			s.vals = vs
-			var ps []parChange
-			for _, x := range s.pars {
-				if x.at != K-1 {
-					ps = append(ps, x)
-				}
-			}
-			s.pars = ps
-		}
-	}
 	saveK := map[int64]bool{}
 	add := func(k int64) {
 		if k >= I-1 {
